@@ -48,6 +48,8 @@ EXTRA_AUDIT = [("HedVerif.Props.Closed", [
     "HedVerif.C07.total_closed_cells",
     "HedVerif.C07.cell_errors_kept_closed_cells",
     "HedVerif.C07.eval_closed_cells",
+    "HedVerif.C07.items_closed",
+    "HedVerif.C07.DelayDemo.delay_pipeline_example_closed",
 ]), ("HedVerif.Props.ClosedRaw", [   # raw closed mode: C06 assembly o C07 file layer o C01 strings, from sidecar + table
     "HedVerif.C07.raw_is_composition",
     "HedVerif.C07.raw_rows_order",
@@ -57,6 +59,7 @@ EXTRA_AUDIT = [("HedVerif.Props.Closed", [
     "HedVerif.C07.cell_issue_closed_raw",
     "HedVerif.C07.cell_errors_kept_closed_raw",
     "HedVerif.C07.pipeline_example_closed_raw",
+    "HedVerif.C07.delay_pipeline_example_closed_raw",
 ])]
 
 SIG_MERGED = "C07-merged-row-label"
